@@ -138,7 +138,7 @@ PROP = dict(
         "from the callback) reports exactly the collisions of the collider value, so the single-wrapper laws hold leaf by leaf in every scene. "
         "SmartSqueeze.Transform terminates, "
         "squeezes exactly the material outside the unsqueezable ranges and acts with slope ratio / 1. The model is tied to /repo on every run by "
-        "regenerated definitions (63 + checkSqueezed + 4 AxisSqueeze/AxisPinch tie theorems) and exact-mode correspondence "
+        "regenerated definitions (63 + checkSqueezed + 10 AxisSqueeze/AxisPinch tie theorems) and exact-mode correspondence "
         "with the real Go code on all these methods in 2D and 3D and by bit-exact Float runs on arbitrary doubles (rotations, pinch powers)."
     ),
     level_note=(
